@@ -8,6 +8,7 @@ CONSTANTS
   WithInv = TRUE
   Dyn = FALSE
   WithDC = TRUE
+  WithWinch = FALSE
 VIEW View
 INVARIANT PlacementsExact
 INVARIANT NoDuplicates
